@@ -412,8 +412,8 @@ func (fx *FX) specBin(x *SX, env *SEnv, cur, old *State) Val {
 		}
 		return Val{T: t, S: SBool}
 	case "<", "<=", ">", ">=":
-		if l.S != SInt || r.S != SInt {
-			specErrf("ordered comparison on non-integers in %s", x)
+		if !(l.S == SInt && r.S == SInt) && !(l.S == "Real" && r.S == "Real") {
+			specErrf("ordered comparison on non-numbers in %s", x)
 		}
 		return Val{T: fmt.Sprintf("(%s %s %s)", op, l.T, r.T), S: SBool}
 	case "+", "-", "*":
@@ -515,6 +515,8 @@ func (fx *FX) specCall(x *SX, env *SEnv, cur, old *State) Val {
 			r = App("sbase", v.T)
 		}
 		return Val{T: fmt.Sprintf("(< (epoch %s) %s)", r, env.nowOld), S: SBool}
+	case "fzero":
+		return Val{T: "0.0", S: "Real"}
 	case "deref":
 		v := ev(0)
 		if v.GT == nil {
